@@ -39,6 +39,12 @@ func ruleAppTypeDefault(c *Ctx, rule string) {
 					if len(pred.Instrs) > 0 && guardedBy(fn, pred.Instrs[0], empty) {
 						okDef = true
 					}
+					// or the merge edge itself is the appType == "" edge (default assigned before the test)
+					for _, e := range empty {
+						if e.from == pred && e.from.Succs[e.succ] == ph.Block() {
+							okDef = true
+						}
+					}
 				}
 				if isResultOf(e, 0, utilPkg+".GetAppTypePrefix") {
 					okConv = true
